@@ -300,9 +300,15 @@ pub fn run(tier: Tier, seed: u64) -> i32 {
                     return Err(format!("combined ServerCrypto emitted {} whose plaintext {} is not the layout for size={size:#x} opcode={op:#x}", hex(&emitted), hex(&plain)));
                 }
                 let h = if i % 3 == 0 {
-                    match cc.attempt_decrypt_server_header([emitted[0], emitted[1], emitted[2], emitted[3]]) {
+                    // the two steps of a large header go through the same or through different handles of the one object
+                    // (the combined object itself, its decrypter() accessor)
+                    let first = if i % 4 < 2 { cc.attempt_decrypt_server_header([emitted[0], emitted[1], emitted[2], emitted[3]]) } else { cc.decrypter().attempt_decrypt_server_header([emitted[0], emitted[1], emitted[2], emitted[3]]) };
+                    match first {
                         WrathServerAttempt::Header(h) => h,
-                        WrathServerAttempt::AdditionalByteRequired => cc.decrypt_large_server_header(*emitted.get(4).ok_or("attempt asks for a fifth byte of a 4-byte header")?),
+                        WrathServerAttempt::AdditionalByteRequired => {
+                            let fifth = *emitted.get(4).ok_or("attempt asks for a fifth byte of a 4-byte header")?;
+                            if i % 2 == 0 { cc.decrypt_large_server_header(fifth) } else { cc.decrypter().decrypt_large_server_header(fifth) }
+                        }
                     }
                 } else {
                     cc.read_and_decrypt_server_header(Cursor::new(&emitted[..])).map_err(|e| e.to_string())?
